@@ -281,6 +281,24 @@ func init() {
 	for _, n := range []string{"bytes.Index", "strings.Index", "internal/bytealg.Index", "internal/bytealg.IndexString"} {
 		externals[n] = index
 	}
+	// LastIndex is a Rabin-Karp loop in package bytes: with a symbolic byte under the rolling hash the terms grow with
+	// every step. Defined here by decisions on byte equalities, like Index.
+	lastIndex := func(fr *frame, args []value) value {
+		h, n := strCells(args[0]), strCells(args[1])
+		for i := len(h) - len(n); i >= 0; i-- {
+			if hasPrefixAt(h, i, n) {
+				return i
+			}
+		}
+		return -1
+	}
+	for _, n := range []string{"bytes.LastIndex", "strings.LastIndex", "internal/bytealg.LastIndexRabinKarp", "internal/bytealg.IndexRabinKarp"} {
+		if strings.HasSuffix(n, "IndexRabinKarp") && !strings.Contains(n, "Last") {
+			externals[n] = index
+		} else {
+			externals[n] = lastIndex
+		}
+	}
 	count := func(fr *frame, args []value) value {
 		c := 0
 		for _, x := range strCells(args[0]) {
